@@ -23,6 +23,12 @@ var labelProp = regexp.MustCompile(`^(C[0-9]{2,3})\.`)
 
 // ownsObligation: obligation o of a unit listed under property p counts for p unless its label names another property.
 func (p *PropDef) ownsObligation(o *Obligation) bool {
+	// Only postconditions can be left to the property they are labelled for: they are the last obligations of a
+	// unit. Everything else (preconditions at call sites, call-site assertions, invariants) is assumed by the
+	// obligations that follow it, so the property whose unit this is must discharge it itself.
+	if o.Kind != "ensures" {
+		return true
+	}
 	lab := o.Label
 	// find any "Cxx." token inside the label
 	idx := regexp.MustCompile(`C[0-9]{2,3}\.`).FindAllString(lab, -1)
